@@ -223,30 +223,7 @@ def run(repo, chk):
 
 
     # ---------------- R04.6
-    def late_bound(fn_node):
-        """Closures created inside a loop / comprehension that read the loop variable freely (they would all see its last value)."""
-        out = []
-        for comp in ast.walk(fn_node):
-            gens = getattr(comp, "generators", None)
-            loopvars = set()
-            if gens:
-                for g_ in gens:
-                    loopvars |= {n.id for n in ast.walk(g_.target) if isinstance(n, ast.Name)}
-                scope = [comp.elt] if hasattr(comp, "elt") else [comp.key, comp.value]
-            elif isinstance(comp, ast.For):
-                loopvars = {n.id for n in ast.walk(comp.target) if isinstance(n, ast.Name)}
-                scope = comp.body
-            else:
-                continue
-            for sc in scope:
-                for lam in ast.walk(sc):
-                    if isinstance(lam, (ast.Lambda, ast.FunctionDef)):
-                        params = {a.arg for a in lam.args.args + lam.args.kwonlyargs}
-                        body = lam.body if isinstance(lam.body, list) else [lam.body]
-                        free = {n.id for b in body for n in ast.walk(b) if isinstance(n, ast.Name) and isinstance(n.ctx, ast.Load)} - params
-                        if free & loopvars:
-                            out.append(f"{norm(lam)[:60]} reads {sorted(free & loopvars)} late")
-        return out
+    from .shared import late_bound
     for m in ("tweak", "rewrite"):
         fi = repo.func(f"overlay.Overlay.{m}")
         lb = late_bound(fi.node)
